@@ -119,7 +119,7 @@ type binst struct {
 	flags     map[string]bool
 	held      bool
 	heldSnp   []string
-	heldOK    bool
+	heldTch   map[int]string // peers AddPeer/RemovePeer succeeded for since the held fetch began (last action)
 	logPos    int64
 	lastFetch time.Time // end of the last step in which a status fetch started
 
@@ -364,7 +364,6 @@ func (in *binst) Apply(ev core.Event) map[string]any {
 	// what a poll that fetches its status in this step is told (the table only changes between steps)
 	freshSnap := in.snap()
 	freshOK := in.answered()
-	staleDone := false
 	switch op {
 	case "start":
 		if in.run != "fresh" {
@@ -389,7 +388,6 @@ func (in *binst) Apply(ev core.Event) map[string]any {
 			in.held = false
 			os.Remove(filepath.Join(in.dir, "hold"))
 			polls = append(polls, map[string]any{"ok": false, "snap": in.heldSnp, "stale": true})
-			staleDone = true
 		}
 	case "add":
 		var err error
@@ -399,8 +397,14 @@ func (in *binst) Apply(ev core.Event) map[string]any {
 			err = in.m.AddPeerWithOptions(peerIP(p), toInt(ev["rx"]), toInt(ev["tx"]), toInt(ev["mult"]), false)
 		}
 		ok = err == nil
+		if ok && in.held {
+			in.heldTch[p] = "a"
+		}
 	case "remove":
 		ok = in.m.RemovePeer(peerIP(p)) == nil
+		if ok && in.held {
+			in.heldTch[p] = "r"
+		}
 	case "frr":
 		// the environment: FRR's session with peer p changes state / the operator (un)configures p in FRR directly
 		s := ev["s"].(string)
@@ -431,7 +435,7 @@ func (in *binst) Apply(ev core.Event) map[string]any {
 		if !in.flags["fail_show"] && in.waitAck() {
 			in.held = true
 			in.heldSnp = freshSnap
-			in.heldOK = true
+			in.heldTch = map[int]string{}
 		} else {
 			// FRR does not answer at all (flag raised) or no poll came: nothing is held
 			synctest.Wait()
@@ -447,7 +451,6 @@ func (in *binst) Apply(ev core.Event) map[string]any {
 		synctest.Wait()
 		// garbage is decided when the answer is written, fail_show when the command starts
 		polls = append(polls, map[string]any{"ok": !in.flags["garbage"], "snap": in.heldSnp, "stale": true})
-		staleDone = true
 		time.Sleep(Interval / 2)
 	default:
 		panic("unknown op " + op)
@@ -485,7 +488,6 @@ func (in *binst) Apply(ev core.Event) map[string]any {
 	for i := 0; i < nfresh; i++ {
 		polls = append(polls, map[string]any{"ok": freshOK, "snap": freshSnap, "stale": false})
 	}
-	_ = staleDone
 	in.mu.Lock()
 	cbs := []map[string]any{}
 	for _, c := range in.cbs {
@@ -529,9 +531,16 @@ func (in *binst) Fingerprint() string {
 			fr = append(fr, fmt.Sprintf("%d:%s/%d/%d/%d", p, e.Status, e.Rx, e.Tx, e.Mult))
 		}
 	}
+	// a held refreshPeers goroutine may carry state no reflection walk can see (locals); whatever it is, it is a
+	// function of what the fetch was told and of the configuration calls completed since
 	hs := ""
 	if in.held {
 		hs = strings.Join(in.heldSnp, ",")
+		for p := 1; p <= in.s.NPeers; p++ {
+			if a, ok := in.heldTch[p]; ok {
+				hs += fmt.Sprintf(";%s%d", a, p)
+			}
+		}
 	}
 	// the monitor loop's ticker cannot be inspected; what the harness can see of its phase is for how many whole
 	// intervals no status fetch has started (always 0 for a loop that polls every MonitorInterval)
